@@ -46,6 +46,8 @@ type Cfg struct {
 	Verify         string // "" = RootCAs(+ServerName for clients); "skip" = InsecureSkipVerify; "other" = OtherRoots
 	ServerName     string // client: default "server.test"
 	SigSchemes     []tls.SignatureScheme
+	MultiCert      []string // server: several static certificates (credential names, first = default); overrides Cred/Cert
+	GetCertSNI     string   // server: WithGetCertificate callback that returns this credential for any non-empty server name
 	Extra          []dtls.Option
 	ExtraServer    []dtls.ServerOption
 	ExtraClient    []dtls.ClientOption
@@ -263,6 +265,10 @@ func CertFor(p *PKI, name string, isClient bool) *tls.Certificate {
 			return &p.ClientEd25519
 		}
 		return &p.ServerEd25519
+	case "rsaalt": // RSA key, name "rsa.server.test"
+		return &p.ServerRSAAlt
+	case "ecalt": // ECDSA key, name "ec.server.test"
+		return &p.ServerECDSAAlt
 	case "wrongca":
 		if isClient {
 			return &p.ClientWrongCA
@@ -297,6 +303,12 @@ func (e *Endpoint) options(p *PKI) []dtls.Option {
 		cred = "ecdsa"
 	}
 	switch {
+	case len(c.MultiCert) > 0:
+		var l []tls.Certificate
+		for _, n := range c.MultiCert {
+			l = append(l, *CertFor(p, n, e.IsClient))
+		}
+		o = append(o, dtls.WithCertificates(l...))
 	case c.Cert != nil:
 		o = append(o, dtls.WithCertificates(*c.Cert))
 	case cred == "psk" || cred == "ecdhepsk":
@@ -443,6 +455,15 @@ func (w *World) NewEndpoint(p *PKI, isClient bool, addr, peer Addr, cfg Cfg) (*E
 		}
 		if cfg.SkipHelloVerify {
 			so = append(so, dtls.WithInsecureSkipVerifyHello(true))
+		}
+		if cfg.GetCertSNI != "" {
+			byName := CertFor(p, cfg.GetCertSNI, false)
+			so = append(so, dtls.WithGetCertificate(func(info *dtls.ClientHelloInfo) (*tls.Certificate, error) {
+				if info != nil && info.ServerName != "" {
+					return byName, nil
+				}
+				return nil, nil
+			}))
 		}
 		so = append(so, cfg.ExtraServer...)
 		e.Conn, err = dtls.ServerWithOptions(e.PC, peer, so...)
